@@ -15,7 +15,8 @@ makes (`mkdir`, `open(O_CREAT|O_TRUNC)`, `chmod`, `lstat`/`stat`, `unlink`, `sym
   the last component is followed or not depending on the system call.
 * Every system call is atomic: an error leaves the file system unchanged.
 * The process is assumed to run with `CAP_DAC_OVERRIDE` (root, as in the jail of the correspondence
-  check), so permission bits never make a call fail; `umask` is 022.
+  check), so permission bits never make a call fail; the `umask` is part of the state (`Fs.umask`, 022 by default) and
+  shows in the modes of the directories `create_dir_all` makes and of a file between `File::create` and `set_permissions`.
 * `NAME_MAX`: a name longer than 255 bytes cannot be created — `mkdir`, `open(O_CREAT)`, `symlink` answer
   `ENAMETOOLONG` when the component they would create is that long. (The kernel answers `ENAMETOOLONG` as soon as a
   walk LOOKS UP such a name; no such name ever exists, so the model's walk answers `ENOENT` / "vacant" at that point: an
@@ -61,6 +62,8 @@ structure Fs where
   nodes : List (Path × Node)
   /-- every path created, modified or removed so far (most recent first) -/
   log : List Path
+  /-- the calling process' file mode creation mask (`umask(2)`; 022 in the usual jail); never changed by a call -/
+  umask : Nat := 0o022
   deriving DecidableEq, Repr
 
 def lookup (p : Path) : List (Path × Node) → Option Node
@@ -72,8 +75,11 @@ def erase (p : Path) : List (Path × Node) → List (Path × Node)
   | (q, n) :: r => if q = p then erase p r else (q, n) :: erase p r
 
 def Fs.get (fs : Fs) (p : Path) : Option Node := lookup p fs.nodes
-def Fs.set (fs : Fs) (p : Path) (n : Node) : Fs := ⟨(p, n) :: erase p fs.nodes, p :: fs.log⟩
-def Fs.del (fs : Fs) (p : Path) : Fs := ⟨erase p fs.nodes, p :: fs.log⟩
+def Fs.set (fs : Fs) (p : Path) (n : Node) : Fs := ⟨(p, n) :: erase p fs.nodes, p :: fs.log, fs.umask⟩
+def Fs.del (fs : Fs) (p : Path) : Fs := ⟨erase p fs.nodes, p :: fs.log, fs.umask⟩
+
+/-- `mode & ~umask` on the 9 permission bits (the mask never clears setuid / setgid / sticky; `mkdir` and `open` pass none) -/
+def Fs.masked (fs : Fs) (mode : Nat) : Nat := mode - (mode &&& (fs.umask &&& 0o777))
 
 /-! ## path text -/
 
@@ -132,12 +138,12 @@ def resolve (fs : Fs) (fl : Bool) (cs : List Name) : Except Errno Path := walk f
 
 /-! ## system calls (as used by `std::fs`) -/
 
-/-- mode of a directory created by `mkdir(path, 0o777)` under umask 022; the set-group-ID bit of the
-parent is inherited (Linux) -/
+/-- mode of a directory created by `mkdir(path, 0o777)`: `0o777 & ~umask` (0o755 under umask 022); the set-group-ID bit
+of the parent is inherited (Linux) -/
 def newDirMode (fs : Fs) (q : Path) : Nat :=
   match fs.get q.dropLast with
-  | some (.dir m) => 0o755 ||| (m &&& 0o2000)
-  | _ => 0o755
+  | some (.dir m) => fs.masked 0o777 ||| (m &&& 0o2000)
+  | _ => fs.masked 0o777
 
 /-- `mkdir(2)` -/
 def mkdir (fs : Fs) (cs : List Name) : Except Errno Fs :=
@@ -189,13 +195,13 @@ def createDirAllLeftRev (fs : Fs) : List Name → Fs
 def createDirAllLeft (fs : Fs) (cs : List Name) : Fs := createDirAllLeftRev fs cs.reverse
 
 /-- `File::create` (= `open(O_WRONLY|O_CREAT|O_TRUNC, 0o666)`, follows a final symbolic link) followed
-by `write_all(content)` -/
+by `write_all(content)`; a new file gets `0o666 & ~umask` -/
 def fileCreate (fs : Fs) (cs : List Name) (content : Bytes) : Except Errno Fs :=
   match resolve fs true cs with
   | .error e => .error e
   | .ok q =>
     match fs.get q with
-    | none => if nameTooLong q then .error .ENAMETOOLONG else .ok (fs.set q (.file content 0o644))
+    | none => if nameTooLong q then .error .ENAMETOOLONG else .ok (fs.set q (.file content (fs.masked 0o666)))
     | some (.file _ m) => .ok (fs.set q (.file content m))
     | some (.dir _) => .error .EISDIR
     | some (.symlink _) => .error .ELOOP
